@@ -26,6 +26,43 @@ class create_transformed_glyph:
     note = "creates a glyph holding exactly one component (paint.glyph, transform)"
 
 
+# ---- the real _create_transformed_glyph, with ufoLib2's constructors summarised ----
+
+
+@contract("ufoLib2.objects.Component", props=["C03"], dep=True)
+class ufo_component_ctor:
+    assumed = True
+    args = {"baseGlyph": Str, "transformation": Opaque("any")}
+    returns = lambda baseGlyph, transformation: Obj(baseGlyph=baseGlyph, transformation=transformation)
+    ensures = {}
+    native = False
+    note = "ufoLib2 Component(baseGlyph=..., transformation=...): keeps its keyword arguments (the transformation is read as six numbers xx, xy, yx, yy, dx, dy -- fontTools Transform order, the order of picosvg's Affine2D)"
+
+
+@contract("nanoemoji.write_font._init_glyph", props=["C03"])
+class init_glyph_stub:
+    assumed = True
+    args = {"color_glyph": Opaque("any")}
+    returns = lambda: Obj(name=Str, components=Const([]), width=Int)
+    ensures = {}
+    native = False
+    note = "a new, empty glyph under a fresh name in the colour glyph's UFO (names: bounded tier)"
+
+
+@contract("nanoemoji.write_font._create_transformed_glyph", props=["C03"])
+class create_transformed_glyph_real:
+    """the glyph made for a transformed COLRv0 / glyf layer holds exactly one component: the
+    layer's outline glyph under exactly the accumulated transform, all six numbers"""
+
+    args = {"color_glyph": Obj(ufo=Obj(glyphOrder=Const([]))), "paint": PG, "transform": AFF}
+    ensures = {
+        "one-component-of-the-outline-glyph": lambda paint, result: len(result.components) == 1 and result.components[0].baseGlyph == paint.glyph,
+        "placed-by-the-whole-transform": lambda transform, result: spec.aff(result.components[0].transformation) == spec.aff(transform),
+        "appended-to-the-glyph-order": lambda color_glyph, result: [n for n in color_glyph.ufo.glyphOrder] == [result.name],
+    }
+    native = False
+
+
 def _expected_name(leaf):
     g, T = leaf
     return g if T == spec.ID else ufn("component_glyph_name", "str", g, T)
